@@ -42,7 +42,7 @@ def run(tier, seed):
             chk.violation({"helper": "active_edges_single_cycle", "route": "z3", "kind": job["obj"]["kind"],
                            "form": job["form"], "direction": d},
                           f"active_edges_single_cycle {d} (definition: {mm['expected']}) {mm['why']}",
-                          {"obj": job["obj"], "form": job["form"], "pattern": mm["pattern"],
+                          {"obj": job["obj"], "id": job["id"], "flip": job.get("flip", 0), "form": job["form"], "pattern": mm["pattern"],
                            "edges_active": GR.bits_of(mm["pattern"], len(job["obj"]["graph"]["edges"])),
                            "expected": mm["expected"], "observed": mm["observed"], "why": mm["why"],
                            "mask": job["masks"][job["patterns"].index(mm["pattern"])]})
@@ -114,8 +114,8 @@ def replay(path):
             continue
         if "pattern" not in c:
             print(json.dumps(c)); bad += 1; continue
-        job = {"obj": c["obj"], "form": c["form"], "prim": False, "patterns": [c["pattern"]],
-               "expects": [c["expected"]], "masks": [c["mask"]]}
+        job = {"obj": c["obj"], "id": c.get("id", 0), "flip": c.get("flip", 0), "form": c["form"], "prim": False,
+               "patterns": [c["pattern"]], "expects": [c["expected"]], "masks": [c["mask"]]}
         mism = GR.run_cycle(job)
         print(json.dumps({"obj": c["obj"], "edges_active": c["edges_active"], "expected": c["expected"],
                           "observed": mism[0] if mism else "as expected"}))
